@@ -214,6 +214,27 @@ theorem C11_vertcat_spec_as_written (d : α) (a : Mat α) (as : List (Mat α)) (
     (fun b hb => hwf b (List.mem_cons_of_mem _ hb)) h
   exact ⟨w, hc, hr, hg⟩
 
+/-- a literal with block entries, evaluated the way `matrix()` / `matrix_row()` do it (heights checked, `MatrixHorzCat`
+    per row, widths checked, a single row returned as it is, `MatrixVertCat` otherwise) with the dispatch, `solve` and
+    copy routines as written, is the model's `matrixLit` — for every number of rows and blocks, errors included. -/
+theorem C11_matrix_literal_as_written (d : α) (rows : List (List (Operand α)))
+    (hwf : ∀ row ∈ rows, ∀ x ∈ row, Mat.wf' (blockOf x)) :
+    evalLit impl horzcat vertcat solves d rows = matrixLit (rows.map (·.map blockOf)) := by
+  rw [C11_concat_table_as_written.2.2.1, C11_concat_table_as_written.2.2.2, C11_concat_table_as_written.2.1]
+  exact evalLit_eq impl (fun r m dst off hm => gen_impl_eq r m dst off hm) d rows hwf
+
+/-- hence the block-matrix theorem holds for the kernels as written. -/
+theorem C11_matrix_literal_eq_block_as_written (d : α) (rows : List (List (Operand α))) (r : Mat α)
+    (hwf : ∀ row ∈ rows, ∀ x ∈ row, Mat.wf' (blockOf x))
+    (h : evalLit impl horzcat vertcat solves d rows = .ok r) :
+    Mat.wf' r ∧ ∀ i j, i < r.rows → j < r.cols → r.get? i j = litGet (rows.map (·.map blockOf)) i j := by
+  rw [C11_matrix_literal_as_written d rows hwf] at h
+  exact C11_matrix_literal_eq_block _ r (by
+    intro row hrow b hb
+    obtain ⟨r', hr', rfl⟩ := List.mem_map.mp hrow
+    obtain ⟨x, hx, rfl⟩ := List.mem_map.mp hb
+    exact hwf r' hr' x hx) h
+
 end asWritten
 
 /-! ### non-vacuity -/
@@ -231,6 +252,10 @@ example : evalCat impl vertcat solves 0 [.mat (⟨2, 3, [1, 3, 2, 4, 5, 6]⟩ : 
 open MechVerif.ConcatIR MechVerif.Gen.ConcatKernels in
 example : evalCat impl horzcat solves 0 [.mat (⟨1, 2, [1, 2]⟩ : Mat Nat), .scalar 3, .mat ⟨1, 1, [4]⟩]
     = .ok ⟨1, 4, [1, 2, 3, 4]⟩ := by decide
+open MechVerif.ConcatIR MechVerif.Gen.ConcatKernels in
+example : evalLit impl horzcat vertcat solves 0
+    [[.mat (⟨2, 2, [1, 3, 2, 4]⟩ : Mat Nat), .mat ⟨2, 1, [5, 6]⟩], [.scalar 7, .mat ⟨1, 2, [8, 9]⟩]]
+    = .ok ⟨3, 3, [1, 3, 7, 2, 4, 8, 5, 6, 9]⟩ := by decide
 open MechVerif.ConcatIR MechVerif.Gen.ConcatKernels in
 example : copy_into_row_major (⟨1, 2, [7, 8]⟩ : Mat Nat) ⟨2, 2, [1, 0, 2, 0]⟩ 1 = .ok (⟨2, 2, [1, 7, 2, 8]⟩, 1) := by decide
 open MechVerif.ConcatIR MechVerif.Gen.ConcatKernels in
